@@ -313,7 +313,14 @@ def norm(x, depth=0):
         return ("method", x.__name__, norm(x.__self__, depth + 1))
     if isinstance(x, Num):
         return ("Num", norm(x.v, depth + 1))
-    return (type(x).__name__, repr(x))
+    if isinstance(x, int) and not isinstance(x, bool):
+        return ("int", hex(x))                      # repr() of an int is limited to 4300 digits
+    if isinstance(x, Fraction):
+        return ("Fraction", hex(x.numerator), hex(x.denominator))
+    try:
+        return (type(x).__name__, repr(x))
+    except ValueError:
+        return (type(x).__name__, "<no printable form>")
 
 
 def outcome(fn, target, args):
